@@ -1,12 +1,16 @@
 #!/bin/bash
-# usage: tools/seedtest.sh <patch.diff> <Cxx> [<Cyy> ...]   -- apply a seeded change to /repo, run checks, undo
-patch="$1"; shift
-cd /repo || exit 2
-if ! git diff --quiet; then echo "repo dirty"; exit 2; fi
-if ! git apply --check "$patch" 2>/dev/null; then echo "PATCH DOES NOT APPLY (needs rebase): $patch"; exit 3; fi
-git apply "$patch"
+# usage: tools/seedtest.sh <patch.diff> <Cxx> [<Cyy> ...]
+# Tries a seeded change out WITHOUT touching /repo: a scratch git worktree of /repo's HEAD under /tmp gets the patch,
+# the quick checks run against it (VERIF_REPO), the worktree is removed.  Evidence / replay files of such runs go to
+# $VERIF_SCRATCH_OUT (default /tmp/verif-scratch-out/<pid of this script>), not into /verif.
+patch="$(readlink -f "$1")"; shift
+wt=/tmp/seedwt-$$
+git -C /repo worktree add -q --detach $wt HEAD || exit 2
+trap 'git -C /repo worktree remove --force $wt 2>/dev/null; rm -rf /tmp/verif-scratch-out/$$' EXIT
+if ! git -C $wt apply --check "$patch" 2>/dev/null; then echo "PATCH DOES NOT APPLY (needs rebase): $patch"; exit 3; fi
+git -C $wt apply "$patch"
+export VERIF_REPO=$wt VERIF_SCRATCH_OUT=/tmp/verif-scratch-out/$$
 for p in "$@"; do
-  out=$(cd /verif && ./verif check "$p" --tier quick 2>&1); rc=$?
-  echo "== $patch :: $p -> rc=$rc"; echo "$out" | grep -E "VIOLATION|KNOWN-FINDING|MACHINERY|drift" | head -5
+  out=$(cd /verif && timeout 1500 ./verif check "$p" --tier quick 2>&1); rc=$?
+  echo "== $patch :: $p -> rc=$rc"; echo "$out" | grep -E "VIOLATION|MACHINERY|drift" | head -${SEEDTEST_LINES:-3} | cut -c1-300
 done
-git reset -q --hard HEAD; git status --short | head -3
